@@ -9,13 +9,22 @@ E2 bounded enumeration on the real Material / Substance classes.
   duality    for every unscaled number-fraction material: rebuild it from the mass fractions X it reports
              (Norm.MASS_FRACTION) and compare x and X.
   substance  x and X over the atoms of 8 formulas (Norm.NUMBER), also after multiplying the substance by {2, 3, 0.5}.
+  string     materials given as expression strings "p <A> p <B> [p <C>]": every tuple of proportion spellings from 12
+             (decimals, integer, unsigned / signed / upper-case exponents of unequal size) x both normalisation modes x
+             both isotope modes; oracle = closed formulas for float(spelling) + the same material given as a dict.
+  history    E1 exploration of operation histories on LIVE composites: Substance CO2, Material by number and by mass
+             fractions (dictionary and string input) x every sequence of 1..2 (thorough 3) operations from
+             {add(existing component, n), add(new component, n), + composite sharing a component (last / not last),
+             + disjoint composite, * k}, unpruned; after the last step x and X must follow the closed formulas for the
+             final amounts (reference: a dict) and equal those of a freshly constructed composite with these amounts.
 
 Oracle (from the statement only): sum x = sum X = 100; number mode: x_i = 100 p_i / sum p, X_i = 100 p_i m_i /
 sum p_j m_j; mass mode: X_i = 100 p_i / sum p, x_i = 100 (p_i/m_i) / sum (p_j/m_j); m_i is the component mass the
 object itself reports in data_components() (that this mass is right is C10's business).
 
-Not demanded: the 'avg' row; string input of materials (parsing is not part of this statement); zero or negative
-proportions; the same substance listed twice; Norm.NUMBER for a Material.
+Not demanded: the 'avg' row; spellings of a proportion that Python's float() and the documented "fraction" do not
+share (leading '.', blanks inside a number); zero or negative proportions; the same substance listed twice in a
+constructor argument; Norm.NUMBER for a Material.
 """
 import itertools
 
@@ -26,7 +35,8 @@ PROPERTY = "C11"
 LEVEL = "exploration"
 RULE = ("a case is one (ordered substance tuple, proportion tuple, scaling, normalisation mode, isotope mode); all "
         "cases are distinct by construction; non-trivial = at least two components (fractions are not all 100), "
-        "duality cases and substance cases count once each")
+        "duality cases and substance cases count once each; string: every (spelling tuple, mode, isotope mode); "
+        "history: every (start object, isotope mode, operation sequence), all distinct, none pruned")
 ASSUMPTIONS = [
     "the component mass m_i is the one the object reports in data_components() (its correctness is property C10)",
     "x and X agree with the closed formulas to rel 1e-10, sums to abs 1e-9, duality to rel 1e-9",
@@ -44,6 +54,31 @@ SUB_ATOMS = {           # written by hand: species -> count (the oracle never pa
     "Fe{56+3}2O{-2}3": {"Fe{56+3}": 2, "O{-2}": 3},
 }
 SUB_MULT = [None, 2, 3, 0.5]
+
+# materials given as expression STRINGS "p <substance> p <substance> ...": every tuple of proportion spellings
+# (plain decimals, integers, unsigned / signed / upper-case exponents of unequal size), compared with the closed
+# formulas for float(spelling) and with the same material given as a dictionary
+SPELLINGS = ["0.2", "3.5", "2", "78.084", "0.9999", "1.0e-4", "2.5e-3", "2e-07", "3.5e-06", "7.5e+1", "1e3", "1.5E-2"]
+STR_SUBSTANCES = {2: ["H2O", "NaCl"], 3: ["H2O", "NaCl", "O2"]}
+NWIN_STR = 8                     # quick: k = 2 complete, k = 3 one window of NWIN_STR; thorough: everything
+
+# operation histories on live composites (E1): every sequence of 1..HDEPTH operations on every start object
+HIST_STARTS = {   # id -> (class, constructor argument, amounts written by hand, normalisation mode)
+    "substance:CO2:str": ("Substance", "CO2", {"C": 1, "O": 2}, "number"),
+    "material:number:dict": ("Material", {"H2O": 0.2, "NaCl": 0.3}, {"H2O": 0.2, "NaCl": 0.3}, "number"),
+    "material:number:str": ("Material", "0.2 <H2O> 0.3 <NaCl>", {"H2O": 0.2, "NaCl": 0.3}, "number"),
+    "material:mass:dict": ("Material", {"H2O": 0.2, "NaCl": 0.3}, {"H2O": 0.2, "NaCl": 0.3}, "mass"),
+    "material:mass:str": ("Material", "0.2 <H2O> 0.3 <NaCl>", {"H2O": 0.2, "NaCl": 0.3}, "mass"),
+}
+HIST_OPS = {
+    "Substance": [["add", "O", 2], ["add", "C", 1], ["add", "N", 1],
+                  ["plus", [["C", 1], ["O", 1]]], ["plus", [["H", 2], ["O", 1]]], ["plus", [["N", 2]]],
+                  ["mul", 2], ["mul", 0.5]],
+    "Material": [["add", "H2O", 0.5], ["add", "NaCl", 1], ["add", "KCl", 0.1],
+                 ["plus", [["Ar", 0.5], ["NaCl", 2]]], ["plus", [["H2O", 1], ["O2", 1]]], ["plus", [["O2", 1]]],
+                 ["mul", 2], ["mul", 0.5]],
+}
+HDEPTH = dict(quick=2, thorough=3)
 
 
 def init_worker():
@@ -154,6 +189,82 @@ def check_substance(formula, mult, natural):
     return _compare("substance", case, tags, keys, [atoms[k] for k in keys], "number", got)
 
 
+def check_string(subs, spellings, norm, natural):
+    """material given as an expression string; oracle from float(spelling) and from the dictionary twin"""
+    from scinumtools.materials import Material
+    expr = " ".join("%s <%s>" % (p, s_) for p, s_ in zip(spellings, subs))
+    props = [float(p) for p in spellings]
+    case = dict(kind="string", expr=expr, subs=list(subs), spellings=list(spellings), norm=norm, natural=natural)
+    tags = ["input:str", "norm:" + norm, "k=%d" % len(subs), "natural" if natural else "abundant"]
+    if any("e-" in p.lower() or "e+" in p.lower() for p in spellings):
+        tags.append("signed-exponent")
+    if any("e" in p.lower() for p in spellings) and len({p.lower().partition("e")[2] for p in spellings}) > 1:
+        tags.append("unequal-exponents")
+    o = outcome(Material, expr, natural=natural, norm_type=_norm(norm))
+    if o[0] == "err":
+        return failure("string", case, "Material constructed", list(o), tags, "raises:" + o[1])
+    got = _read(o[1], subs)
+    bad = _compare("string", case, tags, subs, props, norm, got)
+    if bad:
+        return bad
+    o2 = outcome(Material, dict(zip(subs, props)), natural=natural, norm_type=_norm(norm))
+    if o2[0] == "err":
+        return None                 # the dictionary form is the business of the 'fractions' sub-check
+    got2 = _read(o2[1], subs)
+    if got2[0] == "err":
+        return None
+    for i in range(len(subs)):
+        if not R.close(got[1][i], got2[1][i], 1e-10):
+            return failure("string", case, dict(x=got2[1]), dict(x=got[1]), tags, "x-differs-from-dict")
+        if not R.close(got[2][i], got2[2][i], 1e-10):
+            return failure("string", case, dict(X=got2[2]), dict(X=got[2]), tags, "X-differs-from-dict")
+    return None
+
+
+def _make(cls, arg, mode, natural):
+    from scinumtools.materials import Substance, Material
+    if isinstance(arg, dict):
+        arg = dict(arg)
+    if cls == "Substance":
+        return Substance(arg, natural=natural)
+    return Material(arg, natural=natural, norm_type=_norm(mode))
+
+
+def check_history(start, natural, history):
+    """apply the history to a live composite; its x and X must follow the closed formulas for the final amounts and
+    equal those of a composite freshly constructed with the same amounts"""
+    cls, arg, amounts0, mode = HIST_STARTS[start]
+    case = dict(kind="history", start=start, natural=natural, history=history)
+    amounts = R.model_run(amounts0, history)
+    keys = list(amounts)
+    tags = R.history_tags(amounts0, history) + ["class:" + cls, "norm:" + mode, "input:" + start.split(":")[-1],
+                                                "natural" if natural else "abundant"]
+
+    def run():
+        obj = _make(cls, arg, mode, natural)
+        return R.real_run(obj, history, lambda pairs: _make(cls, dict((k, v) for k, v in pairs), mode, natural),
+                          cls == "Material")
+    o = outcome(run)
+    if o[0] == "err":
+        return failure("history", case, "history executed", list(o), tags, "raises:" + o[1]), amounts
+    got = _read(o[1], keys)
+    bad = _compare("history", case, tags, keys, [amounts[k] for k in keys], mode, got)
+    if bad:
+        return bad, amounts
+    o2 = outcome(_make, cls, dict(amounts), mode, natural)
+    if o2[0] == "err":
+        return None, amounts
+    got2 = _read(o2[1], keys)
+    if got2[0] == "err":
+        return None, amounts
+    for i in range(len(keys)):
+        if not R.close(got[1][i], got2[1][i], 1e-10):
+            return failure("history", case, dict(x=got2[1]), dict(x=got[1]), tags, "x-differs-from-fresh"), amounts
+        if not R.close(got[2][i], got2[2][i], 1e-10):
+            return failure("history", case, dict(X=got2[2]), dict(X=got[2]), tags, "X-differs-from-fresh"), amounts
+    return None, amounts
+
+
 # ------------------------------------------------------------------------------------------ plan / shards
 def _tuples():
     out = []
@@ -168,6 +279,14 @@ def plan(tier, seed):
     for t in _tuples():
         for nat in (False, True):
             shards.append(("material", t, nat, win))
+    wins = None if tier == "thorough" else seed % NWIN_STR
+    for k in (2, 3):
+        for first in SPELLINGS:
+            shards.append(("string", k, first, wins))
+    for start, (cls, _, _, _) in HIST_STARTS.items():
+        for nat in (False, True):
+            for first in range(len(HIST_OPS[cls])):
+                shards.append(("history", start, nat, first, HDEPTH[tier]))
     return shards
 
 
@@ -192,6 +311,49 @@ def run_shard(desc):
                         sh.fail(bad)
                     _restore()
         sh.sample(dict(kind="substance", formula="Ca(OH)2", mult=0.5))
+        return sh
+    if desc[0] == "string":
+        _, k, first, win = desc
+        subs = STR_SUBSTANCES[k]
+        for rest in itertools.product(SPELLINGS, repeat=k - 1):
+            spell = (first,) + rest
+            for norm in ("number", "mass"):
+                for nat in (False, True):
+                    if k == 3 and win is not None and hash((spell, norm, nat)) % NWIN_STR != win:
+                        sh.count("string:outside-window")
+                        continue
+                    bad = check_string(subs, spell, norm, nat)
+                    sh.evaluations += 1
+                    sh.nontrivial += 1
+                    sh.count("string:k=%d" % k)
+                    if any(("e-" in p.lower() or "e+" in p.lower()) for p in spell):
+                        sh.count("string:signed-exponent")
+                    if bad:
+                        sh.fail(bad)
+                    _restore()
+        sh.sample(dict(kind="string", expr="%s <H2O> 2e-07 <NaCl>" % first))
+        return sh
+    if desc[0] == "history":
+        _, start, nat, first, depth = desc
+        cls, _, amounts0, _ = HIST_STARTS[start]
+        for h in R.histories(HIST_OPS[cls], depth):
+            if h[0] != HIST_OPS[cls][first]:
+                continue
+            bad, amounts = check_history(start, nat, h)
+            sh.evaluations += 1
+            sh.nontrivial += 1
+            sh.transitions += len(h)
+            sh.traces += 1
+            sh.add_to_set("hstates", R.state_key(start + (":nat" if nat else ":abu"), amounts))
+            sh.add_to_set("hdepth", len(h))
+            for t in R.history_tags(amounts0, h):
+                if t.startswith("last:"):
+                    sh.count("history:" + t)
+            if bad:
+                sh.fail(bad)
+            _restore()
+            if len(h) == 2 and len(sh.samples) < 1:
+                sh.sample(dict(kind="history", start=start, natural=nat, history=h))
         return sh
     _, subs, nat, win = desc
     k = len(subs)
@@ -222,6 +384,10 @@ def replay(rec):
     try:
         if c["kind"] == "substance":
             return check_substance(c["formula"], c["mult"], c["natural"])
+        if c["kind"] == "string":
+            return check_string(c["subs"], c["spellings"], c["norm"], c["natural"])
+        if c["kind"] == "history":
+            return check_history(c["start"], c["natural"], c["history"])[0]
         return check_material(tuple(c["subs"]), tuple(c["props"]), c["scale"], c["norm"], c["natural"],
                               duality=(c["kind"] == "duality" or (c["scale"] == 1 and c["norm"] == "number")))
     finally:
@@ -234,6 +400,15 @@ def finish(total, tier, seed):
                 "substance"):
         if not h.get(key):
             raise HarnessError("vacuous run: no case under " + key)
+    for key in ("string:k=2", "string:k=3", "string:signed-exponent"):
+        if not h.get(key):
+            raise HarnessError("vacuous run: no case under " + key)
+    for key in ("add-existing", "add-new", "plus-shared", "plus-shared-last", "plus-disjoint", "mul"):
+        if not h.get("history:last:" + key):
+            raise HarnessError("vacuous run: no history ends with " + key)
+    hstates = total.sets.get("hstates", set())
+    total.states = len(hstates)
+    total.max_depth = max(total.sets.get("hdepth", {0}))
     full = sum(len(PROPS) ** k * len(list(itertools.permutations(SUBSTANCES, k))) for k in (1, 2, 3)) \
         * len(SCALES) * 2 * 2
     return dict(
@@ -241,6 +416,14 @@ def finish(total, tier, seed):
                     modes=["number", "mass"], isotope_modes=["natural", "abundant"],
                     substance_formulas=SUB_FORMULAS, substance_multipliers=SUB_MULT),
         full_space=full, duality_cases=h.get("duality", 0),
+        states=len(hstates), transitions=total.transitions, traces_validated_against_impl=total.traces,
+        max_depth=total.max_depth,
+        string_bounds=dict(spellings=SPELLINGS, substances=STR_SUBSTANCES, modes=["number", "mass"],
+                           isotope_modes=["natural", "abundant"],
+                           window="all" if tier == "thorough" else
+                           "k=2 complete + window %d of %d of k=3" % (seed % NWIN_STR, NWIN_STR)),
+        history_bounds=dict(starts=sorted(HIST_STARTS), operations=HIST_OPS, depth=HDEPTH[tier],
+                            isotope_modes=["natural", "abundant"], pruning="none (every history executed)"),
         window="all" if tier == "thorough" else "k<=2 complete + window %d of %d of k=3" % (seed % NWIN, NWIN),
         exhaustive=(tier == "thorough"),
         caps_hit=[] if tier == "thorough" else ["quick executes 1 of %d windows of the k=3 mixtures" % NWIN],
@@ -255,8 +438,13 @@ MANIFEST = dict(
          "window of 8 for k=3). x and X are compared with the closed formulas computed from the UNscaled proportions "
          "(rel 1e-10), sums with 100 (abs 1e-9); every unscaled number-fraction material is rebuilt from its reported "
          "mass fractions and must report the same x and X (rel 1e-9); the same formulas are checked over the atoms of "
-         "8 substances and their multiples.",
-    note="Trusted: the component masses reported by data_components() (property C10). Not covered: the avg row, "
-         "string input of materials, proportions outside the alphabet, more than 3 components.",
+         "8 substances and their multiples. Materials written as expression strings: all 12^2 (quick: + one window of "
+         "8 of the 12^3) tuples of proportion spellings incl. signed, unsigned and upper-case exponents x modes, vs the "
+         "closed formulas and the dictionary twin. Live composites: every history of <= 2 (thorough 3) operations "
+         "{add existing/new, + sharing/disjoint, * k} on 5 start objects x 2 isotope modes, vs closed formulas and a "
+         "freshly constructed composite.",
+    note="Trusted: the component masses reported by data_components() (property C10), float() as the meaning of a "
+         "proportion spelling. Not covered: the avg row, proportions outside the alphabet, more than 3 components in "
+         "a constructor, histories beyond the depth bound.",
     technique="bounded product enumeration executed on the implementation, closed-form oracle and round-trip",
 )
